@@ -327,6 +327,30 @@ func (vc *FuncVC) applyContract(st *State, reach Term, ins *ssa.Call, callee *ss
 			vc.oblige("D", fmt.Sprintf("defined/arg:%s:%s", site, pnames[i]), reach, g, vc.propTags("C05", "C06"), ins.Pos(), "the previous contents of a destination are not read: operand "+pnames[i]+" of "+name)
 		}
 	}
+	if vc.dirtyKeys != nil && vc.discovery == 0 {
+		for i, a := range common.Args {
+			pt, isPtr := ptypes[i].Underlying().(*types.Pointer)
+			if !isPtr || isOut(fc, pnames[i]) || len(vc.roots(a)) == 0 {
+				continue
+			}
+			if _, sc := scalarSort(pt.Elem()); sc {
+				continue
+			}
+			rs, restricted := readsOf(vc.Gen, envPre, fc)
+			var gs []Term
+			for _, lf := range vc.L.leaves(pt.Elem(), 0, "") {
+				ad := Add(vars[pnames[i]].T, IntLit(lf.Off))
+				if !vc.dirtyKeys[lf.Key] || (restricted[pnames[i]] && !rs[lf.Key+"@"+ad.S]) {
+					continue
+				}
+				gs = append(gs, Implies(vc.inOperand(vc.roots(a), ad), Eq(vc.load(st, lf.Key, ad, lf.Sort), vc.load(vc.entry, lf.Key, ad, lf.Sort))))
+			}
+			if len(gs) == 0 {
+				continue
+			}
+			vc.oblige("D", fmt.Sprintf("unmodified/arg:%s:%s", site, pnames[i]), reach, And(gs...), vc.propTags("C05"), ins.Pos(), "an operand handed to a callee still holds its value at entry: operand "+pnames[i]+" of "+name)
+		}
+	}
 	var defBefore *State
 	if vc.defKeys != nil {
 		defBefore = st.clone()
